@@ -32,7 +32,7 @@ func NewLogClient(address, socketPath string) *LogClient {
 
 func (l *LogClient) ReadProcessLogs(name string, offset int, follow bool, fn func(api.LogMessage)) (done chan struct{}, err error) {
 
-	url := fmt.Sprintf("ws://%s/process/logs/ws?name=%s&offset=%d&follow=%v", l.address, name, offset, follow)
+	url := fmt.Sprintf("ws://%s/process/logs/ws?name=%s&offset=%d&follow=%v", l.address, queryValue(name), offset, follow)
 	log.Info().Msgf("Connecting to %s", url)
 
 	dialer := websocket.DefaultDialer
